@@ -79,6 +79,10 @@ def replay(run, recs, byid, solvers, render=ground.render, natoms=4, validate=Tr
                 prior = [z["kind"] for z in rec["results"][:j]]
                 sig = dict(base, op=x["kind"], prior_interrupted=("limited" in prior), expected=x["class"], observed=y.get("class"))
                 panicked_before = any(z["class"] == "Panic" for z in rec["results"][:j])
+                if sname != "slg" and any(z.get("class") == "Panic" for z in o["results"][:j]):
+                    # an earlier call of this history panicked in the recursive solver and was reported above; the solver is then
+                    # unusable (assert!(self.stack.is_empty()), property C12) - later calls are in the shadow of that report
+                    continue
                 if sname == "slg" and x["class"] == "Panic" and y.get("class") == "Panic":
                     # the as-is specification predicts the engine's own panic (named deviation) and the real engine panics
                     dev = "SLG_NegativeOnDelayedAnswer" if "Negative subgoal had delayed_subgoals" in y.get("text", "") else "unnamed"
